@@ -18,6 +18,10 @@ class HarnessError(Exception):
     pass
 
 
+class StopScenario(Exception):
+    """a violation was reported for this array: its tracked state is no longer meaningful"""
+
+
 class Arr:
     """One scratch array driven through a history of syncs / scrubs / damage under a steered clock."""
 
@@ -46,10 +50,18 @@ class Arr:
         self.changed = {}               # (disk, name) -> 'content' | 'touch' | 'missing'
         self.just = {}                  # pos -> tracked justsynced bit
         self.batch = 0
-        self.viol = viol                # callback(tag, what, replay, kind)
+        self._viol = viol               # callback(tag, what, replay, kind)
         self.stats = stats
         self.history = []               # replayable list of operations
         self.log_n = 0
+        self.spec = None                # the scenario specification (for --replay)
+        self.nscrub = 0
+        self.failed = False
+
+    def viol(self, tag, what, replay_obj, kind):
+        self.failed = True
+        self.stats['eio_scrubs'] += 0
+        self._viol(tag, what, replay_obj, kind)
 
     # ------------------------------------------------------------------ running the tool
     def run(self, args, T=None, extra_env=None, log=True):
@@ -302,12 +314,15 @@ class Arr:
     def scrub(self, parg, older, test=None, eio=None, dt=None, tag='walk'):
         """parg: None | 'bad' | 'new' | 'full' | int;  older: None | int;  test: None | ('at', n) | ('even',)
         eio: None | (disk, pos).  Runs the binary and the model, compares, reports through self.viol."""
+        if self.failed:
+            raise StopScenario()
         self.tick(dt)
         now = self.T
+        self.nscrub += 1
         blocks, hist, summ = self.status()
         ws = self.words(blocks)
         self.check_hist(ws, hist, 'before scrub')
-        case = {'array': self.name, 'now': now, 'plan': parg, 'older': older, 'test': test, 'infos': ws,
+        case = {'array': self.name, 'spec': self.spec, 'scrub_no': self.nscrub, 'now': now, 'plan': parg, 'older': older, 'test': test, 'infos': ws,
                 'eio': eio, 'damage': {'silent': sorted(self.silent), 'parity': sorted(self.pcorrupt), 'changed': sorted(self.changed.items()),
                                        'pending': sorted(self.pending)}, 'history_len': len(self.history)}
         self.history.append({'op': 'scrub', 'T': now, 'plan': parg, 'older': older, 'test': test, 'eio': eio})
@@ -324,6 +339,9 @@ class Arr:
         if eio is not None:
             name, idx = self.owner[eio[0]][eio[1]]
             env = {'C15_EIO_PATH': '%s/%s' % (eio[0], name), 'C15_EIO_OFFSET': str(idx * 1024)}
+        self.stats['eio_scrubs'] += 1 if eio is not None else 0
+        self.stats['pending_scrubs'] += 1 if any(b['unsynced'] for b in blocks) else 0
+        self.stats['changed_scrubs'] += 1 if self.changed else 0
         dig0 = self.tree_digest()
         rc, out, lt = self.run(args + ['scrub'], extra_env=env)
         dig1 = self.tree_digest()
@@ -586,10 +604,10 @@ def scenario_walk(a, steps, viol):
     """a natural history: batches synced at different times, damage, scrubs of every plan, fix -e, scrub -p bad"""
     rng = a.rng
     # first batches: unequal disks so that later batches overlap existing stripes
-    for b in range(rng.randrange(2, 5)):
+    for b in range(rng.randrange(3, 7)):
         spec = []
         for d in a.disks:
-            for _ in range(rng.randrange(0, 4)):
+            for _ in range(rng.randrange(0, 5)):
                 spec.append((d, rng.randrange(1, 4)))
         if not spec:
             spec = [(a.disks[0], 2)]
@@ -601,7 +619,7 @@ def scenario_walk(a, steps, viol):
         blocks, hist, _ = a.status()
         ws = a.words(blocks)
         usedpos = [k for k, w in enumerate(ws) if w]
-        if r < 0.08 and max(a.alloc.values()) < 60:
+        if r < 0.10 and max(a.alloc.values()) < 70:
             spec = [(rng.choice(a.disks), rng.randrange(1, 4)) for _ in range(rng.randrange(1, 4))]
             a.add_files(spec)
             if rng.random() < 0.4:
@@ -620,12 +638,13 @@ def scenario_walk(a, steps, viol):
                         a.corrupt_data(rng.choice(ds), pos)
                 else:
                     a.corrupt_parity(rng.randrange(a.npar), pos)
-        elif r < 0.32 and a.files:
-            (d, name) = rng.choice(sorted(a.files))
-            a.change_file(d, name, rng.choice(['content', 'touch', 'missing']))
+        elif r < 0.42 and a.files:
+            for _ in range(rng.randrange(1, 3)):
+                (d, name) = rng.choice(sorted(a.files))
+                a.change_file(d, name, rng.choice(['content', 'touch', 'missing']))
         parg, older, test = random_plan(rng, ws, a.T)
         eio = None
-        if rng.random() < 0.06 and usedpos:
+        if rng.random() < 0.10 and usedpos:
             pos = rng.choice(usedpos)
             ds = [d for d in a.disks if pos in a.owner[d] and (d, a.owner[d][pos][0]) not in a.changed]
             if ds:
@@ -862,16 +881,20 @@ def main(tier, replay=None):
         kind, idx, seed, ndisk, npar, t0, steps = spec
         import random
         rng = random.Random(seed)
-        stats = {'tool_runs': 0, 'scrubs': 0, 'fixes': 0, 'refused': 0, 'selected_total': 0, 'plans': {}, 'cases': [],
+        stats = {'tool_runs': 0, 'scrubs': 0, 'fixes': 0, 'refused': 0, 'selected_total': 0, 'plans': {}, 'cases': [], 'eio_scrubs': 0,
+                 'pending_scrubs': 0, 'changed_scrubs': 0,
                  'outcomes': {'verified': 0, 'damaged': 0, 'inconclusive': 0}}
         name = '%s%d' % (kind, idx)
         m = Model(model_exe)
         a = Arr(name, tool, shim, m, rng, ndisk, npar, t0, viol_for(name), stats)
+        a.spec = list(spec)
         try:
             if kind == 'walk':
                 scenario_walk(a, steps, a.viol)
             else:
                 scenario_ties(a, steps, a.viol)
+        except StopScenario:
+            pass
         except Exception as e:
             import traceback
             with lock:
@@ -883,18 +906,53 @@ def main(tier, replay=None):
         with lock:
             stats_all.append(stats)
 
+    # ---- corpus first: fixed plan cases (model output pinned, oracle must agree) and fixed scenarios
+    cdir = os.path.join(VERIF, 'corpus', 'C15')
+    corpus_lines = [l.rstrip('\n').split(' => ') for l in open(os.path.join(cdir, 'plans.txt')) if ' => ' in l]
+    couts = run_lines(model_exe, [l for l, _ in corpus_lines], shards=1)
+    for (line, expect), got in zip(corpus_lines, couts):
+        if got != expect:
+            chk.violation('corpus_plan', 'MODEL-DRIFT: corpus plan case %r gives %r, pinned %r' % (line, got, expect), {'model_line': line, 'model': got, 'pinned': expect}, no_input=True)
+            continue
+        toks = line.split()
+        mm = re.match(r'lim (\w+) (\d+) (-?\d+) (\d+) ([01]*)$', got)
+        if mm and toks[1] == '0' and toks[2] == '0':
+            parg = None if toks[3] == 'default' else (toks[3] if toks[3] in ('bad', 'new', 'full') else int(toks[3]))
+            older = None if toks[4] == '-' else int(toks[4])
+            wsx = list(map(int, toks[6:]))
+            o = orc.expected_selection(wsx, parg, older, int(toks[5]), None)
+            if o['selected'] != set(k for k, c in enumerate(mm.group(5)) if c == '1'):
+                chk.violation('corpus_oracle', 'MODEL-DRIFT: corpus plan case %r: model %r, property oracle selects %s' % (line, got, sorted(o['selected'])), {'model_line': line}, no_input=True)
+    corpus_specs = [tuple(x) for x in json.load(open(os.path.join(cdir, 'scenarios.json')))['scenarios']]
+    if tier == 'quick':
+        corpus_specs = corpus_specs[:3]
+
     rng = chk.rng
-    specs = []
-    nwalk, nties = (8, 6) if tier == 'quick' else (32, 24)
-    wsteps, trounds = (22, 3) if tier == 'quick' else (60, 6)
+    specs = list(corpus_specs)
+    nwalk, nties = (12, 8) if tier == 'quick' else (48, 32)
+    wsteps, trounds = (30, 3) if tier == 'quick' else (80, 6)
+    if replay:
+        obj = json.load(open(replay))
+        sp = (obj.get('replay') or {}).get('spec')
+        if not sp:
+            print('replay file has no scenario spec (model-only finding): re-run the check with the same VERIF_SEED')
+            return 2
+        print('replaying scenario %s up to scrub %s' % (sp, obj['replay'].get('scrub_no')))
     for i in range(nwalk):
         t0 = rng.choice([1700000000, 1700000000, 1000000, 4000000000, 1234567])
         specs.append(('walk', i, rng.getrandbits(48), rng.choice([2, 3, 3, 4]), rng.choice([1, 2, 2, 3]), t0 + rng.randrange(0, 8), wsteps))
     for i in range(nties):
         t0 = rng.choice([1700000000, 90 * DAY, 4000000000])
         specs.append(('ties', i, rng.getrandbits(48), rng.choice([2, 3]), rng.choice([1, 2]), t0 + rng.randrange(0, 8), trounds))
+    if replay:
+        specs = [tuple(sp)]
     with ThreadPoolExecutor(max_workers=min(NCPU, len(specs))) as ex:
         list(ex.map(run_scenario, specs))
+    if replay:
+        for what, p, noinp in chk.violations:
+            print('# %s' % what)
+        print('replay: %d violation(s) reproduced' % len(chk.violations))
+        return 1 if chk.violations else 0
 
     # ---- failing-input search on the model and the exhaustive stripe book-keeping comparison
     mbad, nontriv_m, nm = model_search(chk, model_exe, 4000 if tier == 'quick' else 40000)
@@ -928,10 +986,14 @@ def main(tier, replay=None):
                 'distinct by (size, used, plan, age, selected, distinct times, bad, limits).  model-only: %d plan cases + %d stripe cases' % (nm, nb),
         'binary_scrubs': len(cases), 'tool_runs': sum(s['tool_runs'] for s in stats_all), 'fix_runs': sum(s['fixes'] for s in stats_all),
         'refused_commands': sum(s['refused'] for s in stats_all),
+        'scrubs_with_injected_eio': sum(s['eio_scrubs'] for s in stats_all),
+        'scrubs_with_pending_blocks': sum(s['pending_scrubs'] for s in stats_all),
+        'scrubs_with_changed_files': sum(s['changed_scrubs'] for s in stats_all),
         'plans_run': plans, 'stripe_outcomes_on_binary': outc,
         'tie_cut_cases': sum(1 for c in cases if c['tie_cut']), 'cases_with_bad_marks': sum(1 for c in cases if c['bad']),
         'stripes_selected_total': sum(s['selected_total'] for s in stats_all),
         'array_sizes': sorted(set(c['n'] for c in cases))[:40],
+        'corpus_plan_cases': len(corpus_lines), 'corpus_scenarios': len(corpus_specs),
         'model_search_cases': nm, 'model_search_nontrivial': nontriv_m, 'books_cases': nb, 'books_reference_kinds': bkinds,
         'traces_validated_against_impl': len(cases),
     })
